@@ -233,6 +233,55 @@ def field_grid_predicates():
                     ok = False
                 yield ('matcher-charge-hydrogen-grid', f'C:charge={c}:h={h}:query=({qc},{qh})', ok)
 
+QUERY_WILDCARDS = {'A': 'AnyElement', 'M': 'AnyMetal'}  # documented query wildcards, not elements: the only non-table symbols any lookup may accept
+
+
+def outside_table_predicates():
+    """A lookup agrees with the standard table also where the table has NO entry: numbers <= 0 and > 118, one/two letter strings that are
+    not symbols, wrong-case symbols and the generated class names must be rejected (ValueError) by Element, QueryElement and
+    DynamicElement alike, and QueryContainer.add_atom / smarts must not invent an element for them."""
+    import string
+    from chython.periodictable import DynamicElement, QueryElement, Element
+    std = {s for _, s in iupac()}
+    nums = list(range(-260, 1)) + list(range(119, 400))
+    U, L = string.ascii_uppercase, string.ascii_lowercase
+    syms = [a for a in U] + [a + b for a in U for b in L] + [s.lower() for s in std] + [s.upper() for s in std if len(s) == 2] + \
+           ['D', 'T', '', '*', 'Uue', 'Uup', 'Element', 'Core'] + ['Query' + s for s in ('C', 'H', 'Og')] + ['Dynamic' + s for s in ('C', 'H', 'Og')]
+    for base in (Element, QueryElement, DynamicElement):
+        for n in nums:
+            try:
+                r = base.from_atomic_number(n)
+                ok, got = False, getattr(r, '__name__', repr(r))
+            except ValueError:
+                ok, got = True, None
+            except Exception as e:
+                ok, got = False, 'raises ' + type(e).__name__
+            yield ('number-outside-table-rejected', f'{base.__name__}:{n}' + ('' if ok else f':got={got}'), ok)
+        for s in dict.fromkeys(syms):
+            if s in std:
+                continue
+            try:
+                r = base.from_symbol(s)
+                got = getattr(r, '__name__', repr(r))
+                ok = base is QueryElement and QUERY_WILDCARDS.get(s) == got
+            except ValueError:
+                ok, got = True, None
+            except Exception as e:
+                ok, got = False, 'raises ' + type(e).__name__
+            yield ('symbol-outside-table-rejected', f'{base.__name__}:{s!r}' + ('' if ok else f':got={got}'), ok)
+    from chython import QueryContainer, MoleculeContainer
+    for n in (0, -1, -2, -117, 119, 255):
+        for cont in (QueryContainer, MoleculeContainer):
+            try:
+                c = cont()
+                c.add_atom(n)
+                ok = False
+            except (ValueError, TypeError, KeyError, IndexError):
+                ok = True
+            except Exception:
+                ok = True
+            yield ('add-atom-number-outside-table-rejected', f'{cont.__name__}:{n}', ok)
+
 
 def correspond(ctx):
     """Exhaustive evaluation on the live classes. A false predicate *is* a failing input for the property."""
@@ -262,6 +311,12 @@ def correspond(ctx):
         ctx.dist(pred)
         if not ok:
             ctx.fail(f'C18/{pred}/{detail.split(":query")[0]}', f'{pred} fails for {detail}', {'predicate': pred, 'symbol': 'C', 'detail': detail})
+    for pred, detail, ok in outside_table_predicates():
+        ctx.count((pred, detail))
+        ctx.dist(pred)
+        if not ok:
+            ctx.fail(f'C18/{pred}/{detail.split(":got=")[0]}', f'{pred} fails for {detail}: there is no such entry in the standard table',
+                     {'predicate': pred, 'symbol': None, 'detail': detail.split(':got=')[0]})
     std = dict(iupac())
     syms = []
     for c in Element.__subclasses__():
@@ -306,6 +361,9 @@ def probe(inp):
     if inp['predicate'] in ('query-charge-settable', 'matcher-charge-hydrogen-grid'):
         bad = [(p, d) for p, d, ok in field_grid_predicates() if not ok and p == inp['predicate']]
         return bool(bad), f'{inp["predicate"]}: failing cases {bad[:6]}' if bad else f'{inp["predicate"]} holds on the whole grid'
+    if inp['predicate'].endswith('outside-table-rejected'):
+        bad = [(p, d) for p, d, ok in outside_table_predicates() if not ok and p == inp['predicate'] and d.split(':got=')[0] == inp.get('detail')]
+        return bool(bad), f'{inp["predicate"]}: {bad[:4]}' if bad else f'{inp["predicate"]} holds for {inp.get("detail")}'
     if inp['predicate'] == 'agrees-with-standard':
         from chython.periodictable import Element
         std = dict(iupac())
